@@ -24,7 +24,8 @@ CONSTANTS MaxW,       \* number of writer calls
           MaxCalls,   \* calls per reader
           Ranges,     \* cursor ranges <<lo, hi>> to choose from
           VLens,      \* value lengths to choose from
-          WithReset   \* whether the writer may call Reset
+          WithReset,  \* whether the writer may call Reset
+          CallOps     \* kinds of reader calls: subset of {"get", "find", "has", "iter"}
 
 VARIABLES nodes,      \* Seq([key, val, vlen, next])   node 0 is the head
           head,       \* level-0 link of the head
@@ -32,10 +33,9 @@ VARIABLES nodes,      \* Seq([key, val, vlen, next])   node 0 is the head
           rpc,        \* reader -> "idle" | "inv" | "read"
           rres,       \* reader -> reply computed in its critical section
           rcur,       \* reader -> [nd, fwd]     the coded cursor
-          ncalls,     \* reader -> calls made
-          ever        \* pairs <<k, v>> ever stored
+          ncalls      \* reader -> calls made
 
-ivars == <<nodes, head, wpc, wop, rpc, rres, rcur, ncalls, ever>>
+ivars == <<nodes, head, wpc, wop, rpc, rres, rcur, ncalls>>
 allvars == <<mvars, ivars>>
 
 KLen(k) == k + 1
@@ -115,7 +115,6 @@ MCWBegin ==
   /\ \E o \in WOps :
        /\ WBegin(o)
        /\ wop' = o
-       /\ ever' = IF o.op = "put" THEN ever \cup {<<o.k, o.v>>} ELSE ever
   /\ wpc' = "begun"
   /\ UNCHANGED <<nodes, head, rpc, rres, rcur, ncalls>>
 
@@ -125,19 +124,19 @@ MCWCrit ==
        [] wop.op = "del"   -> ImplDelete(wop.k)
        [] wop.op = "clear" -> ImplReset
   /\ wpc' = "applied"
-  /\ UNCHANGED <<mvars, wop, rpc, rres, rcur, ncalls, ever>>
+  /\ UNCHANGED <<mvars, wop, rpc, rres, rcur, ncalls>>
 
 MCWEnd ==
   /\ wpc = "applied"
   /\ WEnd(IF used <= cap THEN cap ELSE used)
   /\ wpc' = "idle"
-  /\ UNCHANGED <<nodes, head, wop, rpc, rres, rcur, ncalls, ever>>
+  /\ UNCHANGED <<nodes, head, wop, rpc, rres, rcur, ncalls>>
 
 -----------------------------------------------------------------------------
 (* Readers *)
 
-Calls(r) == {[op |-> o, k |-> k, h |-> r, mv |-> "none", arg |-> 0] : o \in {"get", "find", "has"}, k \in Keys}
-            \cup (IF cits[r].rel THEN {} ELSE
+Calls(r) == {[op |-> o, k |-> k, h |-> r, mv |-> "none", arg |-> 0] : o \in CallOps \ {"iter"}, k \in Keys}
+            \cup (IF cits[r].rel \/ "iter" \notin CallOps THEN {} ELSE
                   {[op |-> "iter", k |-> 0, h |-> r, mv |-> m, arg |-> 0] : m \in {"first", "last", "next", "prev"}}
                   \cup {[op |-> "iter", k |-> 0, h |-> r, mv |-> "seek", arg |-> x] : x \in Keys})
 
@@ -146,7 +145,7 @@ MCRInv(r) ==
   /\ \E c \in Calls(r) : RInvoke(r, c)
   /\ rpc' = [rpc EXCEPT ![r] = "inv"]
   /\ ncalls' = [ncalls EXCEPT ![r] = @ + 1]
-  /\ UNCHANGED <<nodes, head, wpc, wop, rres, rcur, ever>>
+  /\ UNCHANGED <<nodes, head, wpc, wop, rres, rcur>>
 
 \* the critical section under the read lock
 MCRCrit(r) ==
@@ -168,13 +167,14 @@ MCRCrit(r) ==
                   [] o.op = "find" -> IF FindGE(o.k) = 0 THEN <<"notfound", -1, 0>> ELSE NodeRep(FindGE(o.k))
                   [] o.op = "has"  -> IF FindEq(o.k) = 0 THEN <<"none", -1, 0>> ELSE <<"none", o.k, 1>>]
   /\ rpc' = [rpc EXCEPT ![r] = "read"]
-  /\ UNCHANGED <<mvars, nodes, head, wpc, wop, ncalls, ever>>
+  /\ UNCHANGED <<mvars, nodes, head, wpc, wop, ncalls>>
 
 MCRResp(r) ==
   /\ rpc[r] = "read"
   /\ RRespond(r, rres[r])
   /\ rpc' = [rpc EXCEPT ![r] = "idle"]
-  /\ UNCHANGED <<nodes, head, wpc, wop, rres, rcur, ncalls, ever>>
+  /\ rres' = [rres EXCEPT ![r] = <<"none", -1, 0>>]
+  /\ UNCHANGED <<nodes, head, wpc, wop, rcur, ncalls>>
 
 -----------------------------------------------------------------------------
 
@@ -193,7 +193,6 @@ MCInit ==
   /\ rres = [r \in Readers |-> <<"none", -1, 0>>]
   /\ rcur = [r \in Readers |-> [nd |-> 0, fwd |-> FALSE]]
   /\ ncalls = [r \in Readers |-> 0]
-  /\ ever = {}
 
 MCNext ==
   \/ MCWBegin \/ MCWCrit \/ MCWEnd
@@ -232,8 +231,13 @@ ForwardUp ==
      rres[r][2] > cits[r].pos
 OnlyStored ==
   \A r \in Readers : (rpc[r] = "read" /\ open[r].op \in {"get", "find", "iter"} /\ rres[r][2] # -1) =>
-     <<rres[r][2], rres[r][3]>> \in ever
+     \E i \in Dom(hist) : hist[i][rres[r][2]] = rres[r][3]
 
-MCView == <<map, kl, vl, n, size, used, cap, its, hist, wbeg, wdone, open, cits,
-            nodes, head, wpc, wop, rpc, rres, rcur, ncalls, ever>>   \* res is output only
+\* res is output only.  A reader that has made all its calls is retired: its cursor, and the
+\* history kept only for it, cannot influence anything any more.
+Retired(r) == ncalls[r] = MaxCalls /\ rpc[r] = "idle"
+LiveCits == [r \in {x \in Readers : ~Retired(x)} |-> cits[r]]
+MCView == <<map, kl, vl, n, size, used, cap, its, Keep(hist, Needed(open, LiveCits, wdone)), wbeg, wdone, open,
+            LiveCits, [r \in Readers |-> IF Retired(r) THEN <<>> ELSE <<rpc[r], rres[r], rcur[r], ncalls[r]>>],
+            nodes, head, wpc, IF wpc = "idle" THEN NoOp ELSE wop>>
 =============================================================================
